@@ -150,9 +150,12 @@ func (t *table) add(a string) {
 	t.toks = append(t.toks, Hex(a), B(ok), B(is4), Hex(key))
 }
 
+// addLine describes the address field of a candidate line: the parser takes the fifth
+// space-separated field (whatever precedes it) and strips the zone.
 func (t *table) addLine(raw string) {
-	for _, f := range strings.Split(raw, " ") {
-		t.add(stripZone(f))
+	f := strings.Split(raw, " ")
+	if len(f) > 4 {
+		t.add(stripZone(f[4]))
 	}
 }
 
@@ -328,9 +331,9 @@ func run(c *Ctx) error {
 		return nil
 	}
 	g := &gen{r: c.Rng}
-	nCtor, nText, nPair := 6000, 9000, 3000
+	nCtor, nText, nPair := 12000, 20000, 6000
 	if c.Tier != "quick" {
-		nCtor, nText, nPair = 150000, 250000, 60000
+		nCtor, nText, nPair = 800000, 1400000, 300000
 	}
 	// fixed corpus first
 	for _, l := range corpus {
